@@ -45,6 +45,11 @@ Filter_(t, pred) == IF ~HasCol(t, pred.col) THEN Err("ColumnNotFound")
 SubsetInt(t, i) == IF i < 0 \/ i >= NRows(t) THEN Err("IndexError")
                    ELSE Table(t.cols, <<t.rows[i + 1]>>)
 SubsetSlice(t, a, b) == Table(t.cols, SubSeq(t.rows, Min2(a, NRows(t)) + 1, Min2(b, NRows(t))))
+(* slice(a, b, step), step >= 1: rows a, a+step, ... below min(b, n) *)
+SubsetSliceStep(t, a, b, step) ==
+  LET hi == Min2(b, NRows(t))
+      idx == SelectSeq([i \in 1..NRows(t) |-> i - 1], LAMBDA i : i >= a /\ i < hi /\ (i - a) % step = 0)
+  IN Table(t.cols, [j \in 1..Len(idx) |-> t.rows[idx[j] + 1]])
 SubsetList(t, idx) == IF \E i \in 1..Len(idx) : idx[i] < 0 \/ idx[i] >= NRows(t) THEN Err("IndexError")
                       ELSE Table(t.cols, [i \in 1..Len(idx) |-> t.rows[idx[i] + 1]])
 SubsetMask(t, mask) == IF Len(mask) # NRows(t) THEN Err("IndexError")
